@@ -12,19 +12,23 @@ the second call cleans the printed result (the cleaning pass is the identity on 
 (`canonParts_reparsed`: `safelyUnquote_idem`, `host_idempotent`, `canonQuery_idempotent`,
 the path facts `PathIdem` proved in `Lemmas/Normpath.lean`).
 
-Proved for the unquoted mode (`quoted = False`, the default) and every `strip_fragment`.
-`FullIdempotent` is the statement without side conditions; it is FALSE for the model and for
-the implementation (`idempotent_fails_outside`, known finding KF-C02-2/3), the side
-conditions of `canonicalize_idempotent_partial` name the region where it holds:
+Proved for the unquoted mode (`quoted = False`, the default) and every `strip_fragment`, for
+every string the function accepts (`hs : canonicalizeUrl … u = some s`).  `FullIdempotent` is
+the statement without side conditions; `canonicalize_idempotent_partial` has two:
 
 * the default protocol is 1–64 ASCII letters (`https`, `http`, `ftp://` …): `PROTOCOL_RE`
   recognises it again on the second call;
-* the bracket conditions of `canonicalize_reparse_partial`;
-* no `%` in the host (the host is lower-cased but the cleaning pass upper-cases escapes);
-* an authority is printed: the netloc is not empty or the scheme is one of `uses_netloc`
-  (`custom:///p` prints as `custom:/p`, which the second call reads as a scheme-less URL);
-* the printed result does not end with a white-space character (a host ending with U+00A0
-  and nothing after it: the second call strips it).
+* no `%` in the parsed host (`hpct`): the accessor lower-cases the host while the cleaning
+  pass upper-cases escapes, so the second call does not see the printed string but an
+  upper-cased one.  The implementation IS idempotent there (witnesses `http://a%ABb.com/`,
+  `http://[::1%7A]:80/` in the corpus of C02); the proof would need the idna decoder to be
+  insensitive to the case of hex digits after a `%` in a label, which `PunyLaws` does not say.
+
+The three former side conditions are gone with the defects they named: the bracket
+conditions (KF-C01-1/2 → FX-C01-USERBRACKETS, FX-C01-IPBRACKETS, `Lemmas/BracketHost.lean`),
+"an authority is printed" (KF-C02-3 → FX-C02-EMPTYAUTH: `scheme://` is always printed,
+`printSplit_normal`), "the result does not end with white space" (KF-C02-2 →
+FX-C02-TRAILINGWS: `printed_last`).
 
 The quoted mode, and idempotence across spellings, stay with the oracle (`UNPROVED`).
 -/
